@@ -202,3 +202,72 @@ contract(
     inline=GATE_INLINE,
     stubs=GATE_STUBS,
 )
+
+
+# ---------------------------------------------------------------------------
+# reflected family: every kind of attribute goes through these two gates, and what the declaration constructors create
+# ---------------------------------------------------------------------------
+def _all_attribute_classes():
+    import importlib
+    import pkgutil
+
+    import bumble.profiles
+    from bumble import gatt, gatt_adapters, gatt_server  # noqa: F401  (define subclasses of Attribute)
+
+    for m in pkgutil.iter_modules(bumble.profiles.__path__):
+        try:
+            importlib.import_module('bumble.profiles.' + m.name)
+        except Exception:  # noqa: BLE001  (optional dependencies of a profile)
+            pass
+    seen, todo = [], [att.Attribute]
+    while todo:
+        c = todo.pop()
+        for s in c.__subclasses__():
+            if s not in seen:
+                seen.append(s)
+                todo.append(s)
+    return sorted(seen, key=lambda c: (c.__module__, c.__qualname__))
+
+
+def attribute_family(top, out, tier, seed):
+    """one obligation per subclass of att.Attribute found in bumble (gatt, gatt_adapters, gatt_server, profiles.*):
+    read_value / write_value are the functions verified above (no override), so the contracts hold for services,
+    includes, characteristic declarations, characteristics (and their adapters) and descriptors alike; plus what
+    the declaration constructors create (READABLE only; the CCCD added by Server.add_service READABLE|WRITEABLE)"""
+    from bumble import gatt, gatt_server
+
+    checks = {}
+    for cls in _all_attribute_classes():
+        same = cls.read_value is att.Attribute.read_value and cls.write_value is att.Attribute.write_value
+        checks[f'gates-inherited#{cls.__module__}.{cls.__qualname__}'] = (same, f'{cls.__qualname__} overrides read_value/write_value')
+    R_, W_ = att.Attribute.READABLE, att.Attribute.WRITEABLE
+    ch = gatt.Characteristic('2A19', gatt.Characteristic.Properties.NOTIFY | gatt.Characteristic.Properties.READ, R_, b'')
+    svc = gatt.Service('180F', [ch])
+    made = {
+        'Service': svc.permissions,
+        'IncludedServiceDeclaration': gatt.IncludedServiceDeclaration(svc).permissions,
+        'CharacteristicDeclaration': gatt.CharacteristicDeclaration(ch, 3).permissions,
+    }
+    for name, perms in made.items():
+        checks[f'declaration-readable-only#{name}'] = (int(perms) == int(R_), f'{name} created with permissions {perms!r}')
+    import types
+
+    server = gatt_server.Server(types.SimpleNamespace(send_l2cap_pdu=lambda *a: None))
+    server.add_service(svc)
+    cccd = ch.get_descriptor(gatt.GATT_CLIENT_CHARACTERISTIC_CONFIGURATION_DESCRIPTOR)
+    checks['cccd-readable-writeable'] = (cccd is not None and int(cccd.permissions) == int(R_ | W_), f'CCCD created with {getattr(cccd, "permissions", None)!r}')
+    out['kind'] = 'lemma'
+    out['paths'] = 0
+    out['sha'] = ''
+    for name, (ok, why) in checks.items():
+        out['names'][f'C11/attribute_family/{name}'] = {
+            'kind': 'family', 'n': 1, 'proved': 1 if ok else 0, 'refuted': 0 if ok else 1, 'unknown': 0, 'vacuous': 0, 'disagree': 0,
+            'time': 0.0, 'max_time': 0.0, 'backends': {'reflection': 1}, 'abstracted': False, 'expect_sat': False, 'loc': 'attribute_family', 'details': [],
+            'witnesses': [] if ok else [{'loc': 'attribute_family', 'decisions': [], 'info': {}, 'solver': 'reflection', 'detail': why, 'replay': {'outcome': 'violated', 'confirms': True, 'failed': [why]}}],
+        }
+    return out
+
+
+from pyvc.contracts import lemma  # noqa: E402
+
+lemma('attribute_family', lambda: None, prop='C11', params={}, custom=attribute_family)
